@@ -927,7 +927,7 @@ def run(ctx):
     check_stampede(ctx, [c['stampede'] for c in corpus_cases() if 'stampede' in c])
     # anti-stampede placeholder under two real, gated request threads (oracle only; the model is sequential)
     check_stampede(ctx, [gen_stampede(ctx.rng) for _ in range(ctx.budget(60, 1500))])
-    n = ctx.budget(2500, 150000)
+    n = ctx.budget(2000, 150000)
     procs = min(ctx.budget(8, 16), os.cpu_count() or 4)
     done = 0
     while done < n:
